@@ -136,10 +136,11 @@ def data_to_json(data: dict[str, Any]) -> str:
                 for variable_name, variable_item in item_generator():
                     # Check if serializable. If not, just include the
                     # string-representation of the object.
+                    # Note: JSON keys must be strings (variable_name may be any hashable for a dict)
                     if is_json_serializable(variable_item):
-                        cloudpickle_serialization[variable_name] = variable_item
+                        cloudpickle_serialization[str(variable_name)] = variable_item
                     else:
-                        cloudpickle_serialization[variable_name] = str(variable_item)
+                        cloudpickle_serialization[str(variable_name)] = str(variable_item)
 
             serializable_data[data_key] = cloudpickle_serialization
     json_string = json.dumps(serializable_data, indent=4)
